@@ -300,8 +300,13 @@ def finish(run, level_note_extra=None, rule=None, exhaustive=False, assumptions=
     """Classifies the failed predicates, prints KNOWN-FINDING / VIOLATION lines, writes evidence, exits."""
     known = load_known()
     unknown, hits = [], {}
+    growth = {}
     for f in run.fails:
         prop, pred, op, cls = f[0], f[1], f[2], f[3]
+        if prop == "GROWTH":
+            # behaviour the specification describes beyond the listed properties: a note, never a verdict on a listed property
+            growth.setdefault((pred, op), [0, f[5] if len(f) > 5 else ""])[0] += 1
+            continue
         if prop != run.prop:
             continue
         k = match_known(known, prop, pred, op, cls)
@@ -310,6 +315,9 @@ def finish(run, level_note_extra=None, rule=None, exhaustive=False, assumptions=
             hits[k["id"]][1] += 1
         else:
             unknown.append(f)
+    for (pred, op), (n, case) in sorted(growth.items()):
+        print("GROWTH-NOTE: beyond the listed properties: %s on %s differs from the specification %d times (first case %s)" % (pred, op, n, case))
+    run.extra["growth_notes"] = {"%s/%s" % k: v[0] for k, v in growth.items()}
     for kid, (k, n) in sorted(hits.items()):
         print("KNOWN-FINDING: property=%s %s [%s; hit %d times]" % (run.prop, k["what"], kid, n))
     rc = 0
